@@ -179,7 +179,7 @@ func (f *fgen) create() txgen.Tx {
 		initial = new(big.Int).Div(goal, big.NewInt(2))
 	}
 	tags := []string{"focused"}
-	if scenario := len(f.priority) > 0 && f.priority[len(f.priority)-1] == string(id); !scenario && len(f.m.Order) > 0 && f.u.N(8, "cr-reuse") == 0 {
+	if scenario := len(f.priority) > 0 && f.priority[len(f.priority)-1] == string(id); !scenario && len(f.m.Order) > 0 && f.u.N(8, "cr-reuse") < 1+2*len(f.byStage(SZF)) {
 		// the sender chooses the id: ask for one that exists already, in whatever stage it is (terminal
 		// ones preferred: each terminal stage has a store of its own)
 		cands := f.byStage(SZ, SZF, SX, SM, SC)
@@ -188,6 +188,9 @@ func (f *fgen) create() txgen.Tx {
 			for _, oid := range f.m.Order {
 				cands = append(cands, f.m.Props[oid])
 			}
+		}
+		if zf := f.byStage(SZF); len(zf) > 0 && f.u.N(2, "cr-reuse-zf") == 0 {
+			cands = zf // the rarest stage
 		}
 		old := cands[f.u.N(len(cands), "cr-reuse-which")]
 		id = governance.ProposalID(old.ID)
